@@ -34,7 +34,8 @@ MANIFEST = dict(
           "GATE_TABLE unitaries on any lanes of a register of any size the drawn program acts as one unit phase times the "
           "documented gates applied in order (amplitude-function semantics; placement lemma by naturality of the generated "
           "gate functions; the dense interpreter is bridged to it by proof for every number of lanes, C05_circuit_dense); rotations/"
-          "U3/T at any lane for every angle. Random compositions on sparse labels with adversarial literals are in addition "
+          "U3/T at any lane for every angle, and for arbitrary angle expressions given through phase matrices (C05_rotations_any_angle), which "
+          "puts T and the rotations inside the circuit-level composition theorem of C01. Random compositions on sparse labels with adversarial literals are in addition "
           "validated against the ordered product of documented matrices (search oracle)."),
     note=("Trusted: Coq kernel+vm_compute; translators translate/instructions.py, translate/stim_gates.py; hand model of "
           "the graph-touching primitives (Model/Lane.v: spiders, h, _cx_cz, swap, scalar) pinned by source fingerprints and "
